@@ -145,6 +145,9 @@ def make_data(n, d=2, weights=True):
     w = numpy.array([1000 + i for i in range(n)], dtype=float) if weights else None
     if weights == "zeros":       # "all sample weights": rows of weight 0 are rows of the training set like the others
         w[::2] = 0.0
+    if weights == "frac_int_y":  # integer-typed targets (counts) with fractional weights: each keeps its own dtype
+        y = y.astype(numpy.int64)
+        w = numpy.array([0.25 + 0.5 * (i % 5) for i in range(n)], dtype=float)
     return X, y, w
 
 
@@ -364,7 +367,7 @@ def search(ctx, hints):
     # (a) every row eligible: tiny training sets, many draws.  With T total draws the chance that a
     #     fixed row of n is never drawn is ((n-1)/n)^T <= (5/6)^400 < 1e-31: no false alarm.
     for n in range(1, 7):
-        for weights in (False, True, "zeros"):
+        for weights in (False, True, "zeros", "frac_int_y"):
             alpha = 1.0
             ne = max(2, (400 + n - 1) // n)
             bad, drawn = _one_config(n, alpha, ne, weights, rng.randrange(1 << 30))
@@ -390,7 +393,7 @@ def search(ctx, hints):
         # alpha as a float, and as a Python int (alpha=1, alpha=2: the same fractions of n written without a dot)
         alpha = rng.choice([0.25, 0.5, 0.75, 1.0, 1.0, 1.5, 2.0, 0.3, 0.9, 1, 2, 1])
         ne = rng.randint(1, 6)
-        weights = rng.choice([False, True, "zeros"])
+        weights = rng.choice([False, True, "zeros", "frac_int_y"])
         n_jobs = rng.choice([None, None, 1, 2, 3])
         bad, _ = _one_config(n, alpha, ne, weights, rng.randrange(1 << 30), d=rng.choice([1, 2, 3]), n_jobs=n_jobs)
         evals += 1
